@@ -569,15 +569,18 @@ META["C08"] = dict(
 PLANS["C14"] = dict(
     level="exploration",
     rule=("the full 2x2x2x2x2 policy matrix (wildcard / specific origin, credentials, allow-headers list or none, expose list or none, max-age or none; walked by case index) on generated applications "
-          "(routes with method subsets, the same route split over several items, nested mounts with and without routes at the mount point, items in shuffled registration order, CORS on the root or "
-          "on a mounted application) x requests per path (simple requests of 6 methods, OPTIONS without request-method, preflights for every method incl. HEAD/OPTIONS/unknown/lower-case/substring/"
+          "(routes with method subsets, the same route split over several items, nested mounts with and without routes at the mount point, every fourth case with the methods of one path split over applications - a route "
+          "of the parent exactly at a mount prefix whose mounted application has a route at '/', and two applications mounted at one prefix -, items in shuffled registration order, CORS on the "
+          "root or (not for split cases) on a mounted application) x requests per path (simple requests of 6 methods, OPTIONS without request-method, preflights for every method incl. HEAD/OPTIONS/unknown/lower-case/substring/"
           "list look-alikes, with and without Access-Control-Request-Headers, to every registered path, a miss inside the scope and a miss at the root). Oracle: reference CORS model over the policy "
           "and the route table of the description. distinct_nontrivial = distinct (policy vector, registered-method set, request class)."),
     quick=[R("c14", "rel", 3_200), R("c14", "miri", 8, shards=8, flags={"small": 1})],
     thorough=[R("c14", "rel", 80_000), R("c14", "dbg", 16_000), R("c14", "asan", 16_000), R("c14", "rel", 8_000, features=["openapi"]), R("c14", "miri", 64, shards=16, flags={"small": 1})],
-    floors={"quick": {"evaluations": 250_000, "distinct": 2_000, "class:preflight-ok": 30_000, "class:preflight-bad-method": 60_000, "class:preflight-unregistered-path": 40_000, "class:simple": 80_000},
+    floors={"quick": {"evaluations": 250_000, "distinct": 2_000, "class:preflight-ok": 30_000, "class:preflight-bad-method": 60_000, "class:preflight-unregistered-path": 40_000, "class:simple": 80_000,
+                      "split:apps-with-a-path-shared-by-two-applications": 100},
             "thorough": {"evaluations": 7_000_000, "distinct": 4_000}},
-    assumptions=["paths matched by more than one route pattern (static next to param) are not judged", "responses outside the fang's scope are not judged", "Allow-Methods is compared as a set"],
+    assumptions=["paths matched by more than one route pattern (static next to param) are not judged", "responses outside the fang's scope are not judged", "Allow-Methods is compared as a set",
+                 "an application mounted at a prefix that an earlier application already uses has only a route at '/': ohkami refuses at start-up two merged subtrees that begin with the same segment"],
 )
 META["C14"] = dict(
     engine="vh c14",
